@@ -62,6 +62,22 @@ pub fn gen_c19(out: &mut Out, rng: &mut Rng, thorough: bool) {
 }
 
 /// independent reading of a slave id spelling; `None` = the property does not say
+/// the public conversions from bytes (`Request` / `Response` / `ExceptionResponse::try_from`):
+/// every first byte, with payloads of a few lengths – "the function code reported equals the
+/// first byte of the encoding" also for what these conversions build
+pub fn gen_c19_conversions(out: &mut Out, rng: &mut Rng, _thorough: bool) {
+    for b in 0..=255u8 {
+        for len in [0usize, 1, 2, 4, 5, 9] {
+            let mut p = vec![b];
+            p.extend(rng.bytes(len));
+            let h = hex(&p);
+            monitor_line(out, &format!("reqdec {h}"));
+            monitor_line(out, &format!("rspdec {h}"));
+            monitor_line(out, &format!("excdec {h}"));
+        }
+    }
+}
+
 fn slave_oracle(s: &str) -> Option<Option<u8>> {
     let dec = !s.is_empty() && s.bytes().all(|b| b.is_ascii_digit());
     if dec {
@@ -119,6 +135,20 @@ pub fn mon_c19(out: &mut Out, l: &str, r: &str) {
             if let Some(b) = spec::response_bytes(&rsp) {
                 let ok = r.ends_with(&format!(" {}", hex8(b[0])));
                 out.check(ok, || format!("function code of response is not its first byte {:02X}: {r}", b[0]), l);
+            }
+        }
+        ["reqdec", bs] | ["rspdec", bs] => {
+            // what the public conversion from bytes builds reports the first byte as its function code
+            if let Some(tok) = r.strip_prefix("ok ") {
+                let bytes = p_bytes(bs).unwrap();
+                let fc = if t[0] == "reqdec" {
+                    p_request(tok).map(|q| crate::wire::fc_num(q.function_code()))
+                } else {
+                    p_response(tok).map(|q| crate::wire::fc_num(q.function_code()))
+                };
+                if let (Some(fc), Some(b0)) = (fc, bytes.first()) {
+                    out.check(fc == *b0, || format!("value decoded from a PDU that begins with {b0:02X} reports function code {fc:02X}: {tok}"), l);
+                }
             }
         }
         ["tcpreq", _, _, q] => {
@@ -421,6 +451,59 @@ pub fn gen_c08(out: &mut Out, rng: &mut Rng, thorough: bool) {
             monitor_line(out, &format!("excdec {h}"));
         }
     });
+}
+
+/// the same classification through the *framed* paths: what the TCP and RTU codecs of server
+/// and client make of a frame that carries the PDU – long PDUs (around and beyond the limit of
+/// 253 bytes, which only a frame can carry) and a sample of the others
+pub fn gen_c08_framed(out: &mut Out, rng: &mut Rng, thorough: bool) {
+    let mut n = 0usize;
+    let every = if thorough { 3 } else { 40 };
+    let mut lines: Vec<String> = vec![];
+    pdu_inputs(rng, false, true, &mut |which, p| {
+        n += 1;
+        let long = p.len() >= 250;
+        if !(long || n % every == 0) || p.is_empty() || p.len() > 300 {
+            return;
+        }
+        let f = spec::mbap(n as u16, (n % 251) as u8, &p);
+        if which == "both" || which == "req" {
+            lines.push(format!("stream tcpsrv d{}", hex_raw(&f)));
+        }
+        if which == "both" || which == "rsp" || which == "exc" {
+            lines.push(format!("stream tcpcli d{}", hex_raw(&f)));
+        }
+    });
+    // the longest frames the MBAP length field of one byte above the limit can announce, filled
+    // for the variable-size requests so that the byte count is right and surplus bytes follow
+    for total in 250..=262usize {
+        for fc in [0x0Fu8, 0x10, 0x17, 0x41, 0x07] {
+            let mut p = vec![fc];
+            match fc {
+                0x0F => {
+                    let bc = (total.saturating_sub(6)).min(247);
+                    p.extend([0, 0, ((bc * 8) >> 8) as u8, (bc * 8) as u8, bc as u8]);
+                }
+                0x10 => {
+                    let bc = (total.saturating_sub(6)).min(246) & !1;
+                    p.extend([0, 0, 0, (bc / 2) as u8, bc as u8]);
+                }
+                0x17 => {
+                    let bc = (total.saturating_sub(10)).min(242) & !1;
+                    p.extend([0, 0, 0, 1, 0, 0, 0, (bc / 2) as u8, bc as u8]);
+                }
+                _ => {}
+            }
+            while p.len() < total {
+                p.push(rng.u8());
+            }
+            let f = spec::mbap(rng.u16(), rng.unit(), &p);
+            lines.push(format!("stream tcpsrv d{}", hex_raw(&f)));
+        }
+    }
+    for l in lines {
+        monitor_line(out, &l);
+    }
 }
 
 fn small_hash(b: &[u8]) -> u64 {
@@ -926,6 +1009,17 @@ pub fn mon_c09(out: &mut Out, l: &str, r: &str) {
             if ps.len() == 2 {
                 out.check(ps[0] == "tr:ii w=- sd=0", || format!("oversized call: expected InvalidInput and no write, got `{}`", trunc(ps[0])), l);
                 out.check(ps[1].starts_with("ok RHR:BEEF "), || format!("call after an oversized call does not succeed: `{}`", trunc(ps[1])), l);
+                // … and goes out intact: exactly its own frame, nothing of the refused request
+                // in front of it
+                let ops: Vec<&str> = l.split(" | ").collect();
+                if let (Some(kind), Some(unit), Some(op2)) = (t.get(1), t.get(2).and_then(|u| p_u8(u)), ops.get(2)) {
+                    let f2: Vec<&str> = op2.split(' ').collect();
+                    if let Some(pdu) = f2.get(1).and_then(|q| p_request(q)).and_then(|q| spec::request_bytes(&q)) {
+                        let want = if *kind == "tcp" { spec::mbap(1, unit, &pdu) } else { spec::rtu_frame(unit, &pdu) };
+                        let got = super::client::written(ps[1]);
+                        out.check(got == want, || format!("the request after a refused one did not go out intact: wrote {} expected {}", hex(&got), hex(&want)), l);
+                    }
+                }
             }
         }
         ["srv", ..] => {
